@@ -3,7 +3,8 @@
 From Coq Require Import List String NArith Bool.
 From FIM Require Import Base.Str Model.Sliver2Kinds Gen.PropMap Model.Sliver2Map Model.Sliver2WF
   Model.Sliver2Deep Model.Sliver2DeepWF Model.Sliver2Graph
-  Proofs.Sliver2Assoc Proofs.Sliver2MapRT Proofs.Sliver2Elem Proofs.Sliver2DeepRT Proofs.Sliver2GraphRT.
+  Model.Sliver2GraphWF Proofs.Sliver2Assoc Proofs.Sliver2MapRT Proofs.Sliver2Elem Proofs.Sliver2DeepRT
+  Proofs.Sliver2GraphW Proofs.Sliver2GraphR Proofs.Sliver2GraphRT.
 Import ListNotations.
 
 Lemma gen_ok_true : gen_ok = true.
@@ -12,6 +13,14 @@ Proof. reflexivity. Qed.
 (* names the offending attribute / keyword when a mapping line is deleted, misspelled or made asymmetric *)
 Lemma no_bad_entries : map bad_entries all_kinds = [[]; []; []; []; []].
 Proof. vm_compute. reflexivity. Qed.
+
+(* no from_json wraps an absent property into an empty object (Gateway did before fix 450b7bb) *)
+Lemma no_wrapping_decoders : map wrapping_decoders all_kinds = [[]; []; []; []; []].
+Proof. vm_compute. reflexivity. Qed.
+
+(* add_interface_sliver writes the child interfaces too (fix 1e6f502) *)
+Lemma add_interface_descends_true : add_interface_descends = true.
+Proof. reflexivity. Qed.
 
 (* every attribute of every sliver class is written and read back by mutually inverse table entries;
    no graph property collides with a child key or the node id; absent properties read as documented *)
@@ -30,13 +39,10 @@ Lemma unmapped_exact :
   [["image_type"; "stitch_node"]; ["stitch_node"]; ["stitch_node"]; ["stitch_node"]; ["stitch_node"]]%string.
 Proof. vm_compute. reflexivity. Qed.
 
-(* unsetting reads None for every mapped settable property except the gateway of a service *)
+(* unsetting reads None for every mapped settable property *)
 Definition unset_none_entry (k : kind) (kw : string) : bool :=
   match settable k kw, alookup kw sliver_property_to_graph with
-  | Some x, Some _ => match unset_reads k x with
-                      | None => true
-                      | Some _ => kind_eqb k KService && String.eqb kw "gateway"
-                      end
+  | Some x, Some _ => match unset_reads k x with None => true | Some _ => false end
   | _, _ => true
   end.
 Lemma unset_none_all_true : forallb (fun k => forallb (unset_none_entry k) (setter_keywords k)) all_kinds = true.
@@ -64,13 +70,12 @@ Proof.
 Qed.
 
 (* ---------- instantiated theorems ---------- *)
-Theorem props_roundtrip k a :
-  attrs_wf k a = true -> bind (to_props k a) (from_props k) = Ok (normalize k a).
-Proof. apply props_roundtrip_generic. apply sym. Qed.
+Lemma absent_none_k k : absent_none k = true.
+Proof. apply (tables_ok_parts k all_tables_ok_true). Qed.
 
-Theorem props_roundtrip_exact k a :
-  attrs_wf k a = true -> is_normal k a = true -> bind (to_props k a) (from_props k) = Ok a.
-Proof. intros H1 H2. rewrite (props_roundtrip k a H1). rewrite (normalize_normal k a H2). reflexivity. Qed.
+Theorem props_roundtrip k a :
+  attrs_wf k a = true -> bind (to_props k a) (from_props k) = Ok a.
+Proof. apply props_roundtrip_exact_generic; [apply sym | apply absent_none_k]. Qed.
 
 Theorem dict_roundtrip t :
   tree_wf t = true -> bind (to_dict t) (from_dict (t_kind t)) = Ok (forget_ids t).
@@ -80,10 +85,8 @@ Theorem json_roundtrip t :
   tree_wf t = true -> bind (sliver_to_json t) (sliver_from_json (t_kind t)) = Ok (forget_ids t).
 Proof. apply json_roundtrip_generic. exact all_tables_ok_true. Qed.
 
-Theorem graph_flat_roundtrip k id a :
-  kind_eqb k KComponent = false -> attrs_wf k a = true -> is_normal k a = true ->
-  graph_roundtrip (flat k id a) = Ok (flat k id a).
-Proof. apply graph_flat_roundtrip_generic. exact all_tables_ok_true. Qed.
+Theorem graph_roundtrip_thm t : graph_wf t = true -> graph_roundtrip t = Ok t.
+Proof. apply graph_roundtrip_generic; [exact all_tables_ok_true | exact add_interface_descends_true]. Qed.
 
 Theorem set_get k p v d x :
   settable k p = Some x -> single_written k x = true -> value_ok k p v = true -> readable k d = true ->
@@ -128,25 +131,23 @@ Proof.
 Qed.
 
 Lemma unset_reads_none k p x g :
-  settable k p = Some x -> alookup p sliver_property_to_graph = Some g ->
-  (kind_eqb k KService && String.eqb p "gateway") = false -> unset_reads k x = None.
+  settable k p = Some x -> alookup p sliver_property_to_graph = Some g -> unset_reads k x = None.
 Proof.
-  intros Hset Hmap Hng.
+  intros Hset Hmap.
   assert (H := unset_none_all_true). rewrite forallb_forall in H. specialize (H k (in_all_kinds k)).
   rewrite forallb_forall in H. specialize (H p (settable_is_setter k p x Hset)).
   unfold unset_none_entry in H. rewrite Hset, Hmap in H.
-  destruct (unset_reads k x); [|reflexivity]. rewrite Hng in H. discriminate.
+  destruct (unset_reads k x); [discriminate | reflexivity].
 Qed.
 
-(* unset makes the property read as absent - for every mapped property but the gateway of a service *)
+(* unset makes the property read as absent *)
 Theorem unset_get_absent k p d x g :
   settable k p = Some x -> alookup p sliver_property_to_graph = Some g ->
   mem g no_unset_properties = false -> readable k d = true ->
-  (kind_eqb k KService && String.eqb p "gateway") = false ->
   exists d', set_property k p None d = Ok d' /\ get_property k p d' = Ok None.
 Proof.
-  intros Hset Hmap Hnu Hr Hng. destruct (unset_get k p d x g Hset Hmap Hnu Hr) as [d' [H1 H2]].
-  exists d'. split; [exact H1|]. rewrite H2. rewrite (unset_reads_none k p x g Hset Hmap Hng). reflexivity.
+  intros Hset Hmap Hnu Hr. destruct (unset_get k p d x g Hset Hmap Hnu Hr) as [d' [H1 H2]].
+  exists d'. split; [exact H1|]. rewrite H2. rewrite (unset_reads_none k p x g Hset Hmap). reflexivity.
 Qed.
 
 (* documented: name and type (NO_UNSET_PROPERTIES) are refused loudly *)
@@ -166,18 +167,15 @@ Definition w_name (s : string) : option fval := Some (FStr (of_string s)).
 (* a freshly built, named network service: gateway is None *)
 Definition w_service : attrs := aset "resource_name" (w_name "s1") (blank KService).
 
-Lemma props_roundtrip_refuted :
-  exists k a, attrs_wf k a = true /\ bind (to_props k a) (from_props k) <> Ok a.
-Proof.
-  exists KService, w_service. split; [vm_compute; reflexivity|].
-  vm_compute. intro H. inversion H.
-Qed.
+Lemma fresh_service_roundtrip :
+  attrs_wf KService w_service = true /\ bind (to_props KService w_service) (from_props KService) = Ok w_service.
+Proof. split; vm_compute; reflexivity. Qed.
 
 (* an empty Capacities object: encoded as '' *)
 Definition w_empty_caps : attrs :=
   aset "capacities" (Some (FObj "Capacities" (Some []))) (aset "resource_name" (w_name "n1") (blank KNode)).
 
-Lemma empty_object_refuted :
+Lemma empty_value_reads_absent :
   bind (to_props KNode w_empty_caps) (from_props KNode)
   = Ok (aset "capacities" None w_empty_caps).
 Proof. vm_compute. reflexivity. Qed.
@@ -203,16 +201,17 @@ Lemma image_pair_example :
              get_property KNode "image_type" d' = Ok (Some (FStr (S"qcow2"))).
 Proof. eexists. split; [|split]; vm_compute; reflexivity. Qed.
 
-Lemma image_comma_refuted :
+Lemma image_comma_example :
   exists d', set_properties KNode [("image_ref", Some (FStr (S"a,b"))); ("image_type", Some (FStr (S"qcow2")))]%string
                             w_node_props = Ok d' /\
-             get_property KNode "site" d' = Err ExValue.
-Proof. eexists. split; vm_compute; reflexivity. Qed.
+             get_property KNode "image_ref" d' = Ok (Some (FStr (S"a,b"))) /\
+             get_property KNode "image_type" d' = Ok (Some (FStr (S"qcow2"))).
+Proof. eexists. split; [|split]; vm_compute; reflexivity. Qed.
 
-Lemma unset_gateway_refuted :
+Lemma unset_gateway_example :
   readable KService w_service_props = true /\
   exists d', set_property KService "gateway" None w_service_props = Ok d' /\
-             get_property KService "gateway" d' = Ok (Some (FObj "Gateway" None)).
+             get_property KService "gateway" d' = Ok None.
 Proof. split; [vm_compute; reflexivity|]. eexists. split; vm_compute; reflexivity. Qed.
 
 (* graph route: node > component > service > DedicatedPort > sub-interface *)
@@ -226,28 +225,12 @@ Definition w_ns := w_sl KService "s1" "ns1" "OVS" "ServiceType" None None (Some 
 Definition w_comp := w_sl KComponent "c1" "nic1" "SmartNIC" "ComponentType" None (Some [w_ns]) None.
 Definition w_tree := w_sl KNode "n1" "node1" "Server" "NodeType" (Some [w_comp]) None None.
 
-Definition gw_none : option fval := Some (FObj "Gateway" None).
-(* the same tree as it looks once read back: services carry the empty Gateway object *)
-Definition w_ns' := match w_ns with T k n a c s i => T k n (aset "gateway" gw_none a) c s i end.
-Definition w_comp' := w_sl KComponent "c1" "nic1" "SmartNIC" "ComponentType" None (Some [w_ns']) None.
-Definition w_tree' := w_sl KNode "n1" "node1" "Server" "NodeType" (Some [w_comp']) None None.
-
-Lemma graph_route_refuted :
-  tree_wf w_tree' = true /\ graph_roundtrip w_tree' = Ok (drop_subifs w_tree') /\ drop_subifs w_tree' <> w_tree'.
-Proof.
-  split; [vm_compute; reflexivity|]. split; [vm_compute; reflexivity|].
-  vm_compute. intro H. inversion H.
-Qed.
-
-Lemma graph_flat_example :
-  attrs_wf KService (aset "gateway" gw_none w_service) = true /\
-  is_normal KService (aset "gateway" gw_none w_service) = true /\
-  graph_roundtrip (flat KService (S"s1") (aset "gateway" gw_none w_service))
-  = Ok (flat KService (S"s1") (aset "gateway" gw_none w_service)).
+Lemma graph_example :
+  graph_wf w_tree = true /\ graph_roundtrip w_tree = Ok w_tree /\ List.length (subtrees w_tree) = 5%nat.
 Proof. split; [vm_compute; reflexivity|]. split; vm_compute; reflexivity. Qed.
 
 (* non-vacuity of the round-trip hypotheses: the same deep tree through dictionary and JSON *)
 Lemma deep_example :
-  tree_wf w_tree' = true /\ bind (to_dict w_tree') (from_dict KNode) = Ok (forget_ids w_tree')
-  /\ forget_ids w_tree' <> T KNode None [] None None None.
+  tree_wf w_tree = true /\ bind (to_dict w_tree) (from_dict KNode) = Ok (forget_ids w_tree)
+  /\ forget_ids w_tree <> T KNode None [] None None None.
 Proof. split; [vm_compute; reflexivity|]. split; [vm_compute; reflexivity|]. vm_compute. intro H. inversion H. Qed.
